@@ -25,6 +25,7 @@ import OapiVerif.Model.TypeDedup
 import OapiVerif.Model.Bodies
 import OapiVerif.Model.RespDefs
 import OapiVerif.Model.FieldTags
+import OapiVerif.Model.UnionJson
 /-!
 Line-protocol driver: one JSON object per line in, one per line out.
 `{"fn": <name>, ...}` ↦ `{"ok": <result>}` or `{"err": "bad-op"}` (never a default).
@@ -426,6 +427,25 @@ def fieldTagsD (j : Json) : Except String Json := do
   let o : FieldTags.Opts := ⟨← b "disableReqRO", ← b "nullableType"⟩
   pure (Json.arr ((FieldTags.render (FieldTags.fieldTags o p)).map fun (c : Nat) => Json.num (JsonNumber.fromNat c)).toArray)
 
+/-- union.tmpl's MarshalJSON / UnmarshalJSON on one object: fields [[name, optNil]], member values as JSON texts (opaque).
+`decode`: an object that is unmarshalled and marshalled again; otherwise `raw` (null or an object) and `own` (null or a text per
+field) are the Go value that is marshalled. -/
+def unionJsonD (j : Json) : Except String Json := do
+  let fsJ ← j.getObjValAs? (Array Json) "fields"
+  let fs ← fsJ.toList.mapM fun f => do
+    pure (⟨← f.getObjValAs? String "name", ← f.getObjValAs? Bool "optNil"⟩ : JsonObj.Field)
+  let obj (a : Array (Array String)) : List (String × String) := a.toList.map fun r => (r[0]!, r[1]!)
+  let out (o : List (String × String)) : Json := Json.arr (o.map fun kv => Json.arr #[Json.str kv.1, Json.str kv.2]).toArray
+  match j.getObjValAs? (Array (Array String)) "decode" with
+  | .ok o => pure (out (UnionJson.marshal "null" fs (UnionJson.unmarshal fs (obj o))))
+  | .error _ =>
+    let raw : Option (List (String × String)) := match j.getObjValAs? (Array (Array String)) "raw" with
+      | .ok a => some (obj a)
+      | .error _ => none
+    let ownJ ← j.getObjValAs? (Array Json) "own"
+    let own : List (Option String) := ownJ.toList.map fun x => match x with | .str t => some t | _ => none
+    pure (out (UnionJson.marshal "null" fs ⟨raw, own⟩))
+
 /-- `constructImportMapping`: [[document bytes, package path bytes]] ↦ [[document, name, path]] -/
 def importMapD (j : Json) : Except String Json := do
   let a ← j.getObjValAs? (Array (Array (Array Nat))) "mapping"
@@ -714,6 +734,7 @@ def dispatch (fn : String) (j : Json) : Except String Json :=
   | "bodyDefs" => bodyDefsD j
   | "respDefs" => respDefsD j
   | "fieldTags" => fieldTagsD j
+  | "unionJson" => unionJsonD j
   | "schemaKeys" => schemaKeysD j
   | "comment" => commentD j
   | "commentSpaces" => commentSpacesD j
